@@ -102,12 +102,15 @@ def writeTo (c : Conn) (toks : List Tok) : Option Conn :=
   | some k => if c.nwrites ≥ k then none else some { c with out := c.out ++ toks, nwrites := c.nwrites + 1 }
   | none => some { c with out := c.out ++ toks, nwrites := c.nwrites + 1 }
 
+/-- the start index of the next `get_next_call` scan: right after the previous winner -/
+def nextStart (s : S) : Nat := match s.lastCall with | some i => i + 1 | none => 0
+
 def iter (C : Consts) (sizes : Nat → Nat) (s : S) : Option S :=
   match s.listenQ with
   | c :: q => some { s with conns := s.conns ++ [c], listenQ := q }
   | [] =>
     let n := s.conns.length
-    let start := match s.lastCall with | some i => i + 1 | none => 0
+    let start := nextStart s
     let sc := if n = 0 then (s.conns, none) else scanCalls C sizes n start n s.conns
     match sc.2 with
     | some (idx, o, c) =>
